@@ -34,6 +34,9 @@ pub enum StreamKind {
     Push,
     WtUni,
     Unknown,
+    /// a unidirectional stream of the peer with NOTHING written for it: the case's bytes are all there is (a stream
+    /// that ends before its type, inside its type, or right behind it where a push / session id should start)
+    UniRaw,
 }
 
 #[derive(Clone, Copy, Debug, PartialEq, Eq)]
@@ -87,6 +90,7 @@ fn prefix_for(kind: StreamKind) -> Vec<u8> {
         StreamKind::Push => vec![0x01, 0x05],
         StreamKind::WtUni => vec![0x40, 0x54, 0x00],
         StreamKind::Unknown => vec![0x2f],
+        StreamKind::UniRaw => vec![],
     }
 }
 
@@ -379,6 +383,7 @@ fn case_from_json(v: &Value) -> Case {
             "Decoder" => StreamKind::Decoder,
             "Push" => StreamKind::Push,
             "WtUni" => StreamKind::WtUni,
+            "UniRaw" => StreamKind::UniRaw,
             _ => StreamKind::Unknown,
         },
         bytes: explore::unhex(v["bytes"].as_str().unwrap()),
@@ -433,6 +438,14 @@ fn grammar_strings(thorough: bool) -> Vec<(StreamKind, Endpoint, Vec<u8>)> {
         out.push((StreamKind::Request, me, rf::frame(rf::HEADERS, &[0x01, 0x00, 0xd1])));
         out.push((StreamKind::Request, me, rf::frame(rf::HEADERS, &[0x00, 0x00, 0xff, 0xff])));
         out.push((StreamKind::Request, me, rf::frame(rf::HEADERS, &[])));
+        // a field section without any field line (what send_trailers(HeaderMap::new()) emits), alone and as trailers
+        out.push((StreamKind::Request, me, rf::frame(rf::HEADERS, &[0x00, 0x00])));
+        {
+            let mut b = rf::frame(rf::HEADERS, if me == Endpoint::Server { REQ_SECTION } else { RESP_SECTION });
+            b.extend(rf::frame(rf::DATA, b"abc"));
+            b.extend(rf::frame(rf::HEADERS, &[0x00, 0x00]));
+            out.push((StreamKind::Request, me, b));
+        }
         // Huffman-coded values made of one-bits only (padding of every length, EOS, bits after EOS), after a
         // valid head prefix and alone
         for n in 1..=9usize {
@@ -459,6 +472,10 @@ fn grammar_strings(thorough: bool) -> Vec<(StreamKind, Endpoint, Vec<u8>)> {
                     out.push((StreamKind::ControlFirst, me, b));
                 }
             }
+        }
+        // unidirectional streams that stop before, inside or right behind their type
+        for b in [vec![], vec![0x01], vec![0x40], vec![0x40, 0x54], vec![0x01, 0x40], vec![0x40, 0x54, 0x40], vec![0xc0, 0, 0, 0]] {
+            out.push((StreamKind::UniRaw, me, b));
         }
         // QPACK streams carrying instructions, push / webtransport streams with frames
         for kind in [StreamKind::Encoder, StreamKind::Decoder, StreamKind::Push, StreamKind::WtUni, StreamKind::Unknown] {
@@ -539,7 +556,7 @@ pub fn run(args: &Args) -> i32 {
     rep.exhaustive = true;
     let l = if thorough { 3 } else { 2 };
     rep.rule = format!(
-        "(a) every byte string of length <= {l} on each of 8 stream kinds (request, control after SETTINGS, control as first bytes, QPACK encoder, QPACK decoder, push, WebTransport uni, unknown) x role x delivery (whole, one byte per read) x (FIN, left open){}; (b) grammar strings (request-stream sequences of <= {} frames over the C03 alphabet, control-stream sequences over the C04 alphabet, malformed/invalid field sections, WebTransport signal) x one fault of {{FIN, RESET, STOP_SENDING, connection close, transport timeout, or no fault but a transport chunk boundary (bytes read before the rest is written)}} injected at EVERY byte offset x delivery (whole, per byte). (c) size extremes: field sections with N field lines for N around http::HeaderMap's capacity limits (24576/24577, 32768/32769; duplicates of one line and distinct names; as head and as trailers) and frames of every kind with declared lengths 2^32-1, 2^32, 2^62-1. (d) string literals announcing 2^31 ... 2^64-1 bytes with two bytes present (name and value position, plain and Huffman), each executed in a child process so that an aborting allocation is an observation. Real server / client run the documented call pattern including the sending half. Oracle: no panic in any poll (overflow checks + debug assertions on); at quiescence no call is pending on a finished/reset stream or a dead connection. states = distinct final (transport, observation) fingerprints; non-trivial = cases with a fault or >= 2 bytes.",
+        "(a) every byte string of length <= {l} on each of 9 stream kinds (request, control after SETTINGS, control as first bytes, QPACK encoder, QPACK decoder, push, WebTransport uni, unknown, and a unidirectional stream with nothing but the string: ended before, inside or right behind its type) x role x delivery (whole, one byte per read) x (FIN, left open){}; (b) grammar strings (request-stream sequences of <= {} frames over the C03 alphabet, control-stream sequences over the C04 alphabet, malformed/invalid field sections, a field section without field lines as head and as trailers, WebTransport signal, unidirectional streams that stop before / inside / right behind their type) x one fault of {{FIN, RESET, STOP_SENDING, connection close, transport timeout, or no fault but a transport chunk boundary (bytes read before the rest is written)}} injected at EVERY byte offset x delivery (whole, per byte). (c) size extremes: field sections with N field lines for N around http::HeaderMap's capacity limits (24576/24577, 32768/32769; duplicates of one line and distinct names; as head and as trailers) and frames of every kind with declared lengths 2^32-1, 2^32, 2^62-1. (d) string literals announcing 2^31 ... 2^64-1 bytes with two bytes present (name and value position, plain and Huffman), each executed in a child process so that an aborting allocation is an observation. Real server / client run the documented call pattern including the sending half. Oracle: no panic in any poll (overflow checks + debug assertions on); at quiescence no call is pending on a finished/reset stream or a dead connection. states = distinct final (transport, observation) fingerprints; non-trivial = cases with a fault or >= 2 bytes.",
         if thorough { " (length 3: request and control kinds)" } else { "" },
         if thorough { 4 } else { 3 }
     );
@@ -550,7 +567,7 @@ pub fn run(args: &Args) -> i32 {
     rep.bound_note = format!("exhaustive over the stated sets; one fault per execution; strings up to {l} bytes dense");
     let mut cases: Vec<Case> = Vec::new();
     // (a)
-    let kinds = [StreamKind::Request, StreamKind::ControlAfterSettings, StreamKind::ControlFirst, StreamKind::Encoder, StreamKind::Decoder, StreamKind::Push, StreamKind::WtUni, StreamKind::Unknown];
+    let kinds = [StreamKind::Request, StreamKind::ControlAfterSettings, StreamKind::ControlFirst, StreamKind::Encoder, StreamKind::Decoder, StreamKind::Push, StreamKind::WtUni, StreamKind::Unknown, StreamKind::UniRaw];
     let mut strings: Vec<Vec<u8>> = vec![vec![]];
     for a in 0..=255u8 {
         strings.push(vec![a]);
